@@ -114,6 +114,9 @@ def run(prog):
             if guarded(f, cs.bb, lit):
                 out.append(inst("UG", key, OK, f, cs.line, "set(label(l), _) under get(label(l)) == None"))
                 continue
+            if lit[0] != "param" and from_unassigned_filter(prog, f, cs.bb, lab[2][0]):
+                out.append(inst("UG", key + "#drawn", OK, f, cs.line, "the literal is drawn from the unassigned literals of a clause"))
+                continue
             if lit[0] != "param":
                 out.append(inst("UG", key, VIOLATION, f, cs.line,
                                 "%s assigns %s without having asked the model about that variable: a value derived earlier can be "
